@@ -278,14 +278,33 @@ func (P *Prog) enclosing(pos token.Pos) ([]ast.Node, *types.Info) {
 // methods and literals are kept.
 func normExpr(info *types.Info, e ast.Expr) string {
 	var sb strings.Builder
+	depth := 0
+	top := false // the expression being printed is a whole index / slice bound: no parentheses needed around an inlined definition
 	var w func(e ast.Expr)
 	w = func(e ast.Expr) {
+		isTop := top
+		top = false
 		switch e := e.(type) {
 		case nil:
 		case *ast.Ident:
 			obj := info.Uses[e]
 			if obj == nil {
 				obj = info.Defs[e]
+			}
+			// a local that is assigned exactly once from a simple arithmetic expression is
+			// replaced by that expression (`start := i * m; x[start:]` reads as `x[i*m:]`)
+			if def := singleArithDef(info, obj); def != nil && depth < 3 {
+				depth++
+				_, atom := def.(*ast.BinaryExpr)
+				if !isTop && atom {
+					sb.WriteString("(")
+				}
+				w(def)
+				if !isTop && atom {
+					sb.WriteString(")")
+				}
+				depth--
+				return
 			}
 			if v, ok := obj.(*types.Var); ok && !v.IsField() && v.Parent() != nil && v.Pkg() != nil && v.Parent() != v.Pkg().Scope() {
 				sb.WriteString("‹" + shortType(v.Type()) + "›")
@@ -298,16 +317,20 @@ func normExpr(info *types.Info, e ast.Expr) string {
 		case *ast.IndexExpr:
 			w(e.X)
 			sb.WriteString("[")
+			top = true
 			w(e.Index)
 			sb.WriteString("]")
 		case *ast.SliceExpr:
 			w(e.X)
 			sb.WriteString("[")
+			top = true
 			w(e.Low)
 			sb.WriteString(":")
+			top = true
 			w(e.High)
 			if e.Slice3 {
 				sb.WriteString(":")
+				top = true
 				w(e.Max)
 			}
 			sb.WriteString("]")
@@ -515,4 +538,110 @@ func aliases(v ssa.Value) []ssa.Value {
 		}
 	}
 	return out
+}
+
+// localDefs caches, per types.Info, the defining expressions of single-assignment locals.
+var localDefs = map[*types.Info]map[types.Object]ast.Expr{}
+var localDefFiles = map[*types.Info][]*ast.File{}
+
+// registerFiles tells normExpr which files belong to a types.Info.
+func registerFiles(info *types.Info, files []*ast.File) { localDefFiles[info] = files }
+
+func singleArithDef(info *types.Info, obj types.Object) ast.Expr {
+	v, ok := obj.(*types.Var)
+	if !ok || v.IsField() || v.Pkg() == nil || v.Parent() == nil || v.Parent() == v.Pkg().Scope() {
+		return nil
+	}
+	if b, ok := v.Type().Underlying().(*types.Basic); !ok || b.Info()&types.IsInteger == 0 {
+		return nil
+	}
+	defs, ok := localDefs[info]
+	if !ok {
+		defs = map[types.Object]ast.Expr{}
+		count := map[types.Object]int{}
+		for _, f := range localDefFiles[info] {
+			ast.Inspect(f, func(n ast.Node) bool {
+				switch s := n.(type) {
+				case *ast.AssignStmt:
+					for i, l := range s.Lhs {
+						id, ok := l.(*ast.Ident)
+						if !ok {
+							continue
+						}
+						o := info.Defs[id]
+						if o == nil {
+							o = info.Uses[id]
+						}
+						if o == nil {
+							continue
+						}
+						count[o]++
+						if s.Tok == token.DEFINE && len(s.Lhs) == len(s.Rhs) {
+							defs[o] = s.Rhs[i]
+						} else {
+							count[o] += 10
+						}
+					}
+				case *ast.IncDecStmt:
+					if id, ok := s.X.(*ast.Ident); ok {
+						if o := info.Uses[id]; o != nil {
+							count[o] += 10
+						}
+					}
+				case *ast.RangeStmt:
+					for _, kv := range []ast.Expr{s.Key, s.Value} {
+						if id, ok := kv.(*ast.Ident); ok {
+							if o := info.Defs[id]; o != nil {
+								count[o] += 10
+							}
+						}
+					}
+				case *ast.UnaryExpr:
+					if s.Op == token.AND {
+						if id, ok := s.X.(*ast.Ident); ok {
+							if o := info.Uses[id]; o != nil {
+								count[o] += 10
+							}
+						}
+					}
+				}
+				return true
+			})
+		}
+		for o, c := range count {
+			if c != 1 {
+				delete(defs, o)
+			}
+		}
+		// keep only arithmetic over identifiers, selectors, literals and len()
+		for o, e := range defs {
+			if !isSimpleArith(info, e) {
+				delete(defs, o)
+			}
+		}
+		localDefs[info] = defs
+	}
+	return defs[obj]
+}
+
+func isSimpleArith(info *types.Info, e ast.Expr) bool {
+	switch x := e.(type) {
+	case *ast.BinaryExpr:
+		switch x.Op {
+		case token.ADD, token.SUB, token.MUL:
+			return isSimpleArith(info, x.X) && isSimpleArith(info, x.Y)
+		}
+		return false
+	case *ast.ParenExpr:
+		return isSimpleArith(info, x.X)
+	case *ast.Ident, *ast.BasicLit:
+		return true
+	case *ast.SelectorExpr:
+		_, ok := x.X.(*ast.Ident)
+		return ok
+	case *ast.CallExpr:
+		_, ok := isLenOf(info, x)
+		return ok
+	}
+	return false
 }
